@@ -37,6 +37,14 @@ CHECKS = {
    text="The inferred types are shown to be an inductive invariant of the normalised program: for each typed variable and each path of one iteration from an arbitrary typed pre-state, 'value outside the type' is unsatisfiable; bounded exploration from the initial block (under normalised and source semantics) decides whether a non-inductive type set is actually violated. Several fixed-point budgets are exercised.",
    ref="DESIGN.md 3/C05", tech="inductive-step queries from a symbolic typed pre-state + bounded model checking from the initial block (z3)",
    note="Trusted: vlib/sem.py, z3. User-declared types are assumptions. An undefined initial value of a never-initialised auxiliary is not counted as a value it takes. Non-inductive but unreached within K iterations is reported inconclusive."),
+ "C08": dict(cat="other",
+   text="For each family the real get_moment/cf/mgf/get_support/is_discrete are run on symbolic parameters where the implementation accepts them (Bernoulli, Uniform, Exponential, Categorical) and on a stated grid otherwise; moments k = 0..8 are compared with textbook recurrences by z3 over all admissible parameters, transforms with exp/sin/cos uninterpreted and e^{imt} on the unit circle, Taylor coefficients to order 4, support containment as a query, and DistTransformer's location/scale rewriting by the one-iteration law comparison of C02.",
+   ref="DESIGN.md 3/C08", tech="symbolic-parameter execution of the distribution classes + z3 (QF_NRA / QF_UFNRA) against textbook reference moments and transforms",
+   note="Trusted: vlib/distref.py, checks/c08.py:ref_transform, z3. Normal/Laplace/Gamma/Beta/DiscreteUniform moments only on a parameter grid (their implementation needs numbers); TruncNormal moment values, Beta transforms, Gamma transforms with non-integer shape are outside."),
+ "C11": dict(cat="other",
+   text="The real conversion functions and goal handlers are run on symbolic moment vectors (get_all_moments stubbed) and on a generic 3-atom law; central moments and cumulants are compared with their definitions (explicit polynomials, additivity, shift, homogeneity), the printed Markov and second-moment bounds are proved valid for every 3-atom law and threshold by QF_NRA queries, Gram-Charlier moments and the Cornish-Fisher polynomial are compared with the textbook for K <= 5, comb against Pascal's triangle for n <= 64, goal strings against their intended reading.",
+   ref="DESIGN.md 3/C11", tech="symbolic-data execution + z3 identity / validity queries over generic finite laws and symbolic moment and cumulant vectors",
+   note="Trusted: textbook formulas in checks/c11.py, z3. Bounded: orders <= 6, K <= 5, laws with <= 3 atoms, three tail programs with n <= 4/6. Known finding: c1 is reported as the mean."),
 }
 NA_REASON = "check not built yet in this session (see DESIGN.md section 3 for the planned solver-based check)"
 
